@@ -109,13 +109,11 @@ func TestIsolation(t *testing.T) {
 				readers = append(readers[:j], readers[j+1:]...)
 			}
 			before := e.m.Committed
-			recordTx(t, e, g, rapid.IntRange(1, 7).Draw(t, "nops"), rapid.SampledFrom([]int{0, 0, 1, 2, 3}).Draw(t, "nblk"), rapid.IntRange(0, 5).Draw(t, "commit") > 0)
+			rt := recordTx(t, e, g, rapid.IntRange(1, 7).Draw(t, "nops"), rapid.SampledFrom([]int{0, 0, 1, 2, 3}).Draw(t, "nblk"), rapid.IntRange(0, 5).Draw(t, "commit") > 0)
 			if e.m.Committed != before {
-				for h := range before.Blocks {
-					if _, ok := e.m.Committed.Blocks[h]; !ok {
-						for _, r := range readers {
-							r.lost[h] = true
-						}
+				for h := range rt.pruned {
+					for _, r := range readers {
+						r.lost[h] = true
 					}
 				}
 				if mode != "never" {
@@ -167,10 +165,18 @@ type noiseOp struct {
 
 func TestIsolationConcurrent(t *testing.T) {
 	rapid.Check(t, func(t *rapid.T) {
+		defer catchAbort()
 		maxFile := genMaxFile(t)
 		e := newEnv(t, recConcurrent, "conc", maxFile)
 		defer e.cleanup()
 		mode := rapid.SampledFrom([]string{"never", "always", "size"}).Draw(t, "flushmode")
+		if mode == "size" && known(sigSnapshotFlush) {
+			// known finding: a transaction begun while a NON-EMPTY cache is being flushed; only the
+			// size-triggered policy flushes a non-empty cache while readers run
+			recConcurrent.Excluded()
+			recConcurrent.Count("excluded:size-triggered-flush-with-concurrent-readers", 1)
+			mode = rapid.SampledFrom([]string{"never", "always"}).Draw(t, "flushmode2")
+		}
 		switch mode {
 		case "never":
 			ffldb.VerifSetCacheLimits(e.db, 1<<40, 1000*time.Hour)
@@ -472,6 +478,9 @@ func TestIsolationConcurrent(t *testing.T) {
 		}
 		if len(all) > 0 {
 			sort.Strings(all)
+			if mode == "size" {
+				knownOrFatal(t, recConcurrent, sigSnapshotFlush, fmt.Sprintf("isolation violated with %d readers, %d rounds, flush=size, maxfile=%d:\n  %s", K, R, maxFile, strings.Join(all, "\n  ")))
+			}
 			t.Fatalf("isolation violated with %d readers, %d rounds, flush=%s, maxfile=%d:\n  %s", K, R, mode, maxFile, strings.Join(all, "\n  "))
 		}
 		// final state
